@@ -2,7 +2,14 @@
 """Regenerate MANIFEST.json from the table below (kept in one place so it is always valid)."""
 import json, os, subprocess
 ROOT = os.path.dirname(os.path.dirname(os.path.abspath(__file__)))
+import glob
 CHECKS = json.load(open(os.path.join(ROOT, "tools", "checks.json")))
+for f in sorted(glob.glob(os.path.join(ROOT, "tools", "checks.d", "C*.json"))):
+    CHECKS.append(json.load(open(f)))
+CHECKS.sort(key=lambda c: c["property_id"])
+NA = {}
+if os.path.exists(os.path.join(ROOT, "tools", "not_applicable.json")):
+    NA = json.load(open(os.path.join(ROOT, "tools", "not_applicable.json")))
 props = [json.loads(l)["id"] for l in open(os.path.join(ROOT, "properties.jsonl"))]
 hook_commits = subprocess.run(["git", "-C", "/repo", "log", "--format=%H", "--grep=^verif hook"], capture_output=True, text=True).stdout.split()
 m = {
@@ -38,6 +45,6 @@ for c in CHECKS:
     })
 for p in props:
     if p not in claimed:
-        m["not_applicable"].append({"property_id": p, "reason": "check not built yet in this session (planned: property-based test per DESIGN.md section 3)"})
+        m["not_applicable"].append({"property_id": p, "reason": NA.get(p, "check not built yet (planned: property-based test per DESIGN.md section 3); not claimed until it exists and is silent on the unchanged tree")})
 json.dump(m, open(os.path.join(ROOT, "MANIFEST.json"), "w"), indent=1)
 print("claimed:", sorted(claimed))
